@@ -118,6 +118,13 @@ func noise(e *mavlh.Eng, r *gen.Rand, kg *mavlh.KeyGen, known [][]byte, pending 
 
 // runVariant executes the script; mode 0 = Set, 1 = MemSet->Commit, 2 = mixed. Returns the main-line roots.
 func runVariant(e *mavlh.Eng, r *gen.Rand, kg *mavlh.KeyGen, script []step, cfg mavlh.Cfg, mode int, withNoise bool, ref [][]byte) [][]byte {
+	// memTree configurations are replayed by the driver's literal lazy model (which has the memTree and the node
+	// cache), the others by the eager model the theorems are about
+	if cfg.MemTree {
+		out.Op("lazy", "ok")
+	} else {
+		out.Op("eager", "ok")
+	}
 	e.New(cfg)
 	out.Stat("variants", 1)
 	roots := make([][]byte, len(script))
@@ -300,8 +307,16 @@ func huntScenario(e *mavlh.Eng, r *gen.Rand, cfg mavlh.Cfg, base [][]mavlh.KV, k
 	return res
 }
 
-func hunt(e *mavlh.Eng, r *gen.Rand) {
+// hunt: mode "hunt" = configurations without pruning, replayed by the literal lazy model of the driver (line "lazy");
+// mode "hunt-prune" = the same scenarios with EnableMavlPrune, predicate only (pruning bookkeeping is not in that model).
+func hunt(e *mavlh.Eng, r *gen.Rand, prune bool) {
+	if !prune {
+		out.Op("lazy", "ok")
+	}
 	n := gen.Scale(40, 1000)
+	if prune {
+		n = gen.Scale(15, 400)
+	}
 	type scen struct {
 		cfg        mavlh.Cfg
 		base       [][]mavlh.KV
@@ -320,12 +335,17 @@ func hunt(e *mavlh.Eng, r *gen.Rand) {
 		var sc scen
 		if i < len(fixed) {
 			sc = fixed[i]
+			sc.cfg.Prune = prune
 		} else {
 			sc.cfg = mavlh.CfgFromInt(r.Intn(32))
 			if r.Chance(2, 3) {
 				sc.cfg.MemTree = true
 			}
 			if r.Chance(1, 2) {
+				sc.cfg.Prefix = true
+			}
+			sc.cfg.Prune = prune
+			if prune {
 				sc.cfg.Prefix = true
 			}
 			kg := mavlh.NewKeyGen(r, []int{3, 10, 50}[r.Intn(3)])
@@ -391,8 +411,8 @@ func main() {
 		return
 	}
 	r := gen.New(gen.Seed())
-	if os.Getenv("VERIF_C02_MODE") == "hunt" {
-		hunt(e, r)
+	if m := os.Getenv("VERIF_C02_MODE"); m == "hunt" || m == "hunt-prune" {
+		hunt(e, r, m == "hunt-prune")
 		return
 	}
 	n := gen.Scale(24, 200)
